@@ -116,6 +116,8 @@ fn check_backend<F: Backend>(
 where
     <F as fidget_core::eval::Function>::PointEval: 'static,
     <F as fidget_core::eval::Function>::IntervalEval: 'static,
+    <F as fidget_core::eval::Function>::FloatSliceEval: 'static,
+    <F as fidget_core::eval::Function>::GradSliceEval: 'static,
 {
     let name = F::NAME;
     let v = |sig: &str, msg: String, detail: Value| Viol { sig: format!("{name}:{sig}"), msg, detail };
@@ -314,6 +316,19 @@ where
         let mut ev = Shape::<F>::new_float_slice_eval();
         child::note(&format!("C14 {name} shape bulk eval | program {:016x}", p.hash()));
         let got: Vec<f32> = ev.eval_with_transform_and_vars(&tape, &xs, &ys, &zs, &m, &sv).map(|o| o.to_vec()).map_err(|e| v("bulk_error", e.to_string(), setup()))?;
+        // the same call through a bulk evaluator that has lived through
+        // every earlier case of this thread (other variable counts, other
+        // sample counts)
+        {
+            let long = guarded(|| with_long(Shape::<F>::new_float_slice_eval, |ev| ev.eval_with_transform_and_vars(&tape, &xs, &ys, &zs, &m, &sv).map(|o| o.to_vec())));
+            st.inc("long_lived_bulk_evaluator_checks");
+            match long {
+                Ok(Ok(l)) if l.len() == got.len() && l.iter().zip(&got).all(|(a, b)| same_bits(*a, *b)) => {}
+                Ok(Ok(l)) => return Err(v("long_lived_bulk_eval_binding", format!("a float-slice shape evaluator used for earlier shapes gives {l:?}, a fresh one gives {got:?}"), setup())),
+                Ok(Err(e)) => return Err(v("long_lived_bulk_eval_error", format!("a float-slice shape evaluator used for earlier shapes fails with {e}, a fresh one succeeds"), setup())),
+                Err(pi) => return Err(v("long_lived_bulk_eval_panic", format!("a float-slice shape evaluator used for earlier shapes panics at {}: {}", pi.site(), pi.msg), setup())),
+            }
+        }
         // per-sample variable arrays (each sample its own value)
         let arrays: HashMap<Var, Vec<f32>> = free.iter().map(|var| (*var, (0..n).map(|j| val_of[var] + j as f32 * 0.25).collect())).collect();
         let mut sva: ShapeVars<Vec<f32>> = ShapeVars::new();
@@ -418,6 +433,15 @@ where
         let gtape = shape.grad_slice_tape(Default::default());
         let mut gev = Shape::<F>::new_grad_slice_eval();
         let ggot: Vec<Grad> = gev.eval_with_transform_and_vars(&gtape, &gx, &gy, &gz, &m, &sv).map(|o| o.to_vec()).map_err(|e| v("grad_error", e.to_string(), setup()))?;
+        {
+            let long = guarded(|| with_long(Shape::<F>::new_grad_slice_eval, |ev| ev.eval_with_transform_and_vars(&gtape, &gx, &gy, &gz, &m, &sv).map(|o| o.to_vec())));
+            match long {
+                Ok(Ok(l)) if l.len() == ggot.len() && l.iter().zip(&ggot).all(|(a, b)| g_eq(*a, *b)) => {}
+                Ok(Ok(_)) => return Err(v("long_lived_grad_eval_binding", "a grad-slice shape evaluator used for earlier shapes gives other results than a fresh one".into(), setup())),
+                Ok(Err(e)) => return Err(v("long_lived_grad_eval_error", format!("a grad-slice shape evaluator used for earlier shapes fails with {e}, a fresh one succeeds"), setup())),
+                Err(pi) => return Err(v("long_lived_grad_eval_panic", format!("a grad-slice shape evaluator used for earlier shapes panics at {}: {}", pi.site(), pi.msg), setup())),
+            }
+        }
         let mut tin: Vec<Vec<Grad>> = vec![];
         for s in &ax_shapes {
             let t = s.grad_slice_tape(Default::default());
